@@ -2,6 +2,7 @@ import ALV.Common.Json
 import ALV.Model.C07
 import ALV.Model.C07Hist
 import ALV.Spec.C07
+import ALV.Driver.C07Zero
 namespace ALV.Driver.C07
 open ALV ALV.J ALV.C07
 
@@ -485,6 +486,8 @@ def handle (entry : String) (j : Json) : Except String Json := do
     let (steps, fin) ← histRun st0 ((List.range objs.length).map some) ops
     pure <| Json.mkObj [("init", arr (fun p => polyJ (sortAsc p)) objs), ("steps", Json.arr steps),
       ("pool", arr natToJson fin.pool)]
+  | "pynum" => ALV.Driver.C07Zero.handle entry j
+  | "zhist" => ALV.Driver.C07Zero.handle entry j
   | _ => throw s!"C07: unknown entry {entry}"
 
 end ALV.Driver.C07
